@@ -287,12 +287,14 @@ def work_dw_ints(path):
     return ev
 
 
-ALPHA = [b'"', b"\\", b"%", b"\0", b"\n", b"\t", b"\x01", b"\x7f", b"\x80", b"\xff", b"a", b"Z", b"0", b"7", b" ", b"x", b"s", b"(", b")", b"[", b"]", b",", b"'", b"\r", b"\x1b", b"\xc3\xa9"]
+ALPHA = [b'"', b"\\", b"%", b"\0", b"\n", b"\t", b"\x01", b"\x7f", b"\x80", b"\xff", b"a", b"Z", b"0", b"7", b" ", b"x", b"s", b"(", b")", b"[", b"]", b",", b"'", b"\r", b"\x1b", b"\xc3\xa9", b"\a", b"\b", b"\v", b"\f"]
 
 
 def rand_string(rnd):
     n = rnd.choice([0, 1, 1, 2, 3, 5, 8, 12])
-    return b"".join(rnd.choice(ALPHA) for _ in range(n))
+    # a quarter of the bytes are drawn from all 256 values (every control character, every escape letter), the
+    # rest from the characters that matter to the lexer and the printer
+    return b"".join(bytes([rnd.randrange(256)]) if rnd.random() < 0.25 else rnd.choice(ALPHA) for _ in range(n))
 
 
 def run_cli(args, stdin=None):
